@@ -5,6 +5,7 @@ R1 the lock-free increment is a compare-exchange on the value loaded in the same
 R2 insertion happens under the write guard, after a re-probe under that same guard whose miss arm is the inserting one
 R3 forget_one runs on the write-locked store (decrement and removal in one critical section), by compare-exchange
 R4 nobody overwrites the count with a plain store (shared with C08.R5)
+R5 references taken while listing a directory are paired with the entries the client actually learns of (shared with C08.R2)
 
 Linearizability itself (all interleavings) is NOT decided by this check.
 """
@@ -34,6 +35,7 @@ def run(ctx):
     ctx.run_rule("R2-insert-under-guard", r2_insert, F)
     ctx.run_rule("R3-forget-critical-section", c08.r3_forget, F)
     ctx.run_rule("R4-no-plain-store", c08.r5_who, F)
+    ctx.run_rule("R5-readdir-references", c08.r2_readdir, F)
     ctx.assumptions += ["linearizability over all interleavings is not decided (needs schedule exploration, a different technique family)"]
 
 
